@@ -439,6 +439,32 @@ def _s1_allow_lists(program, res):
                         f"({example} builds; Pandas then raises AttributeError / 'not a valid function name for transform')")
 
 
+def row_wise_generators_rule(program, res, rule="C26-S1"):
+    """the catalogue's zero-argument row-wise functions (class 'u': one value per row, `_uniform`) are neither operators nor Term methods, so the
+    vocabulary tests of project and windowed extend do not see them: they have to be on both deny lists"""
+    from .. import sqlexpr
+    er = program.module("expr_rep")
+    rows = sqlexpr.catalog(program)
+    names = sorted({r["op"] for r in rows if r.get("op_class") == "u"})
+    if not names:
+        raise AnalysisError("op catalogue: no row of class 'u' found")
+
+    def members(cname):
+        node = er.consts.get(cname)
+        if node is None:
+            raise AnalysisError(f"anchor vanished: expr_rep.{cname}")
+        return {c.value for c in ast.walk(node) if isinstance(c, ast.Constant) and isinstance(c.value, str)}
+    proj, win = members("fn_names_not_allowed_in_project"), members("fn_names_that_contradict_windowed_situation")
+    for nme in names:
+        for (what, st, example) in (("project", proj, f"project({{'z': '{nme}()'}})"), ("a windowed extend", win, f"extend({{'z': '{nme}()'}}, partition_by=['g'])")):
+            if nme in st:
+                res.ok(rule, f"`{nme}` (one value per row) is refused in {what}")
+            else:
+                res.fail(rule, "expr_rep:fn_names", f"row-wise-generator-accepted:{nme}:{what.split()[-1]}",
+                         f"`{nme}` draws one value per row and is not on the deny list of {what}: {example} is accepted when the step is added — SQL returns one row per "
+                         f"input row for the project, Pandas raises at evaluation", "data_algebra/expr_rep.py", 0)
+
+
 def windowed_classification_rules(program, res, rule="C26-S1"):
     """what decides that an extend is 'windowed' (and therefore subject to the window rules, and emitted with OVER in SQL)"""
     er = program.module("expr_rep")
@@ -542,6 +568,7 @@ def run(program, res, tier):
     _s1_lookup_symbol(program, res)
     _s1_use_and_produce(program, res)
     _s1_allow_lists(program, res)
+    row_wise_generators_rule(program, res)
     windowed_classification_rules(program, res)
     common_keys_rule(program, res)
     _s2(program, model, res)
